@@ -21,15 +21,15 @@ import (
 // LimitPool 是对 Pool 的简单封装允许用户通过控制一段时间内对Pool的令牌申请次数来间接控制Pool中对象的内存总占用量
 type LimitPool[T any] struct {
 	pool   *Pool[T]
-	tokens *atomic.Int32
+	tokens *atomic.Int64
 }
 
 // NewLimitPool 创建一个 LimitPool 实例
 // maxTokens 表示一段时间内的允许发放的最大令牌数
 // factory 必须返回 T 类型的值，并且不能返回 nil
 func NewLimitPool[T any](maxTokens int, factory func() T) *LimitPool[T] {
-	var tokens atomic.Int32
-	tokens.Add(int32(maxTokens))
+	var tokens atomic.Int64
+	tokens.Add(int64(maxTokens))
 	return &LimitPool[T]{
 		pool:   NewPool[T](factory),
 		tokens: &tokens,
